@@ -1983,6 +1983,30 @@ fn boundary_cases() -> Vec<(String, usize, String, String)> {
             format!("value (t i0 i{})", n - 1)));
         // call argument count, packed arguments after n plain ones, list / map / interpolation sizes
         let nums: Vec<String> = (0..n).map(|i| i.to_string()).collect();
+        // The same index operands with elements that take NO register each (`_`, literals, chain targets): with
+        // named elements the register limit (255) is reached long before a u8 index wraps, and an i8 index (≥ 128)
+        // was only reached where the value came from an iterator. These shapes reach every index ≥ 128 in a small frame.
+        let sparse = format!("{}, a", unders(n - 1));
+        v.push(("nested-arg-index-sparse".into(), n, format!("f = |({})| a\nf((0..{}).to_tuple())\n", sparse, n), format!("value i{}", n - 1)));
+        v.push(("match-index-sparse".into(), n, format!("match (0..{}).to_tuple()\n  ({}) then a\n", n, sparse), format!("value i{}", n - 1)));
+        v.push(("match-nested-literals".into(), n, format!("match (0..{}).to_tuple()\n  ({}) then 'hit'\n  else 'else'\n", n, nums.join(", ")), "value sx686974".into()));
+        v.push(("for-args-index-sparse".into(), n, format!("r = null\nfor {} in ((0..{}).to_tuple(),)\n  r = a\nr\n", sparse, n), format!("value i{}", n - 1)));
+        v.push(("args-sparse".into(), n, format!("f = |{}| a\nf({})\n", sparse, nums.join(", ")), format!("value i{}", n - 1)));
+        v.push(("multi-assign-index-sparse".into(), n, format!("{} = (0..{}).to_tuple()\na\n", sparse, n), format!("value i{}", n - 1)));
+        // multi-assignment out of a temporary tuple (`… = 1, 2, …`: TempIndex, index read as i8)
+        v.push(("multi-assign-temp-sparse".into(), n, format!("{} = {}\na\n", sparse, nums.join(", ")), format!("value i{}", n - 1)));
+        v.push(("multi-assign-temp-chain".into(), n, format!("m = (0..{}).to_list()\n{} = {}\n(m[0], m[{}], m[{}])\n", n,
+            (0..n).map(|i| format!("m[{}]", i)).collect::<Vec<_>>().join(", "), (0..n).map(|i| (1000 + i).to_string()).collect::<Vec<_>>().join(", "), n - 2, n - 1),
+            format!("value (t i1000 i{} i{})", 1000 + n - 2, 1000 + n - 1)));
+        v.push(("multi-assign-temp-fields".into(), n, format!("m = {{}}\n{} = {}\n(size(m), m.k0, m.k{})\n",
+            (0..n).map(|i| format!("m.k{}", i)).collect::<Vec<_>>().join(", "), nums.join(", "), n - 1),
+            format!("value (t i{} i0 i{})", n, n - 1)));
+        // the VALUE of such a multi-assignment (the temporary tuple rebuilt as a tuple, index per value)
+        v.push(("multi-assign-temp-result".into(), n, format!("x = a, b = {}\n(size(x), x[{}], x[{}], a, b)\n", nums.join(", "), n - 2, n - 1),
+            format!("value (t i{} i{} i{} i0 i1)", n, n - 2, n - 1)));
+        // multi-value match (`match a, b, …`) with patterns that take no register
+        v.push(("match-multi-literals".into(), n, format!("match {}\n  {} then 'hit'\n  else 'else'\n", nums.join(", "), nums.join(", ")), "value sx686974".into()));
+        v.push(("match-multi-sparse".into(), n, format!("match {}\n  {} then a\n  else 'else'\n", nums.join(", "), sparse), format!("value i{}", n - 1)));
         v.push(("call-args".into(), n, format!("f = |xs...| (size xs, xs[{}])\nf({})\n", n - 1, nums.join(", ")), format!("value (t i{} i{})", n, n - 1)));
         v.push(("call-packed-after".into(), n, format!("f = |xs...| (size xs, xs[{}])\np = (7, 8)\nf({}, p...)\n", n + 1, nums.join(", ")), format!("value (t i{} i8)", n + 2)));
         v.push(("list-literal".into(), n, format!("x = [{}]\n(size(x), x[{}])\n", nums.join(", "), n - 1), format!("value (t i{} i{})", n, n - 1)));
@@ -2019,6 +2043,8 @@ fn boundary_cases() -> Vec<(String, usize, String, String)> {
         ("g = {f: || g, l: [1, 2]}\nsize g.f().l\n", "value i2"),
         ("g = [1, [2, || g], [3]]\nsize g[1][1]()\n", "value i3"),
         ("g = || g\ntype g()()\n", "value sx46756e6374696f6e"),
+        ("f = ([|| f], [1, 2, 3])[0][0]\ntype f()\n", "value sx46756e6374696f6e"),
+        ("f = [|| f, 7][0]\ntype f()\n", "value sx46756e6374696f6e"),
     ].iter().enumerate() {
         v.push(("deferred-self-capture".into(), k, prog.to_string(), exp.to_string()));
     }
@@ -2030,6 +2056,8 @@ fn boundary_cases() -> Vec<(String, usize, String, String)> {
 fn boundary_finding(family: &str, _n: usize) -> Option<&'static str> {
     match family {
         "deferred-self-capture" => Some("F-C05-12"),
+        "multi-assign-temp-sparse" | "multi-assign-temp-chain" | "multi-assign-temp-fields" | "multi-assign-temp-result" => Some("F-C05-15"),
+        "match-multi-literals" | "match-multi-sparse" => Some("F-C05-16"),
         _ => None,
     }
 }
@@ -2044,6 +2072,8 @@ fn behaviour_cases() -> Vec<(&'static str, String, String)> {
         ("F-C05-4(unused function literal, 30b24e7)", "|| 42\nfor i in 0..2\n  |x| x + i\n'hello'\n".into(), s("hello")),
         ("F-C05-6(break out of try, 0e9e81b)", "r = []\nfor x in (1, 2)\n  try\n    break\n  catch e\n    r.push 'caught'\ntry\n  throw 'boom'\ncatch e2\n  r.push 'outer {e2}'\n'{r}'\n".into(), s("['outer boom']")),
         ("F-C05-6(continue out of nested try)", "n = 0\nfor x in 0..3\n  try\n    try\n      n += 1\n      continue\n    catch a\n      n += 100\n  catch b\n    n += 1000\ntry\n  throw 'z'\ncatch c\n  n += 10\nn\n".into(), "value i13".into()),
+        ("non-locals reach a function with an optional argument and the closure nested in it (NON_LOCAL_ACCESS flag)",
+            "make_adder = |n = 1|\n  add = |x| x + n + offset\n  add\nexport offset = 10\nadder = make_adder()\nf = |n = 1| n + offset\n(adder(5), f(), f(2))\n".into(), "value (t i16 i11 i12)".into()),
         ("F-C05-7(bare return nested in a block, aad4e1c)", "f = |c|\n  if c\n    return\ng = |c|\n  for i in 0..2\n    if c\n      return\n'{f false}{f true}{g false}'\n".into(), s("nullnullnull")),
     ]
 }
@@ -2060,7 +2090,8 @@ fn witnesses(id: &str) -> Vec<String> {
             s
         }],
         "F-C05-4" => vec!["|| 42\nprint 'hello'\n".into()],
-        "F-C05-5" => vec!["for x in (1, 2)\n  y = [1, (if x == 1 then continue), 3]\n".into(), "r = ''\nfor x in (1, 2)\n  r = 'a{x}{if x == 1 then break}'\nr\n".into()],
+        "F-C05-5" => vec!["for x in (1, 2)\n  y = [1, (if x == 1 then continue), 3]\n".into(), "r = ''\nfor x in (1, 2)\n  r = 'a{x}{if x == 1 then break}'\nr\n".into(),
+            "for i in 0..4\n  s = \"a{i}b{if i < 2 then continue}c\"\n  print s\n".into()],
         "F-C05-7" => vec!["f = |c|\n  if c\n    return\nprint f false\n".into()],
         "F-C05-8" => vec![{
             // 253 locals, then a two-element list: available_registers_count() == 0
@@ -2317,7 +2348,9 @@ fn real_main() -> i32 {
         // does not depend on n at all (a sequence of assignment statements)
         let limit_ok = !family.ends_with("-statements") && !family.ends_with("-values");
         // a frame that uses (nearly) all 255 registers cannot start a call: the VM reports that as a run-time error
-        let runtime_limit = limit_ok && n >= 250 && got.starts_with("error too_many_registers_are_in_use");
+        // (not for list / tuple literals: 91d516a builds them in batches of 64, they are must-pass by value)
+        let runtime_limit = limit_ok && n >= 250 && family != "list-literal" && family != "tuple-literal"
+            && got.starts_with("error too_many_registers_are_in_use");
         let verdict = if got == expect {
             "value-ok"
         } else if got == "compile-error" && limit_ok {
@@ -2376,7 +2409,7 @@ fn real_main() -> i32 {
         }
         let n = cx.known_counts.get(&id).copied().unwrap_or(0);
         // findings of the boundary sweep: their witnesses are the sweep's own cases (run above)
-        if id == "F-C05-12" && n > 0 {
+        if matches!(id.as_str(), "F-C05-12" | "F-C05-15" | "F-C05-16") && n > 0 {
             failing.push(format!("{} boundary-sweep cases of its families give a wrong value / spurious error", n));
         }
         if known && !failing.is_empty() {
